@@ -632,6 +632,40 @@ func c09MakeOps() (sig, desc []c09Op) {
 		k.SetPTSOffset(1 << 32)
 		d.SetComponents([]scte35.ComponentOffset{k})
 	}, func(g *ref.S35Seg) { g.Comps = []ref.S35Offset{{Tag: 7, Offset: 1 << 32}} })
+	// the descriptor's own getter handles handed back in a different order (the setter must not read
+	// entries it has already overwritten)
+	dv("SetComponents(own handles reversed)", func(m *c09Model) bool { return m.nseg() > 0 && len(m.seg(0).Comps) > 1 }, func(d scte35.SegmentationDescriptor) {
+		cs := d.Components()
+		for i, j := 0, len(cs)-1; i < j; i, j = i+1, j-1 {
+			cs[i], cs[j] = cs[j], cs[i]
+		}
+		d.SetComponents(cs)
+	}, func(g *ref.S35Seg) {
+		for i, j := 0, len(g.Comps)-1; i < j; i, j = i+1, j-1 {
+			g.Comps[i], g.Comps[j] = g.Comps[j], g.Comps[i]
+		}
+	})
+	dv("SetComponents(own last handle + fresh)", c09HasD0Comp, func(d scte35.SegmentationDescriptor) {
+		cs := d.Components()
+		k := scte35.CreateComponentOffset()
+		k.SetComponentTag(9)
+		k.SetPTSOffset(99)
+		d.SetComponents([]scte35.ComponentOffset{cs[len(cs)-1], k, cs[0]})
+	}, func(g *ref.S35Seg) {
+		last, first := g.Comps[len(g.Comps)-1], g.Comps[0]
+		g.Comps = []ref.S35Offset{last, {Tag: 9, Offset: 99}, first}
+	})
+	dv("SetMID(own handles reversed)", func(m *c09Model) bool { return c09D0IsMID(m) && len(m.seg(0).MID) > 1 }, func(d scte35.SegmentationDescriptor) {
+		us := d.MID()
+		for i, j := 0, len(us)-1; i < j; i, j = i+1, j-1 {
+			us[i], us[j] = us[j], us[i]
+		}
+		d.SetMID(us)
+	}, func(g *ref.S35Seg) {
+		for i, j := 0, len(g.MID)-1; i < j; i, j = i+1, j-1 {
+			g.MID[i], g.MID[j] = g.MID[j], g.MID[i]
+		}
+	})
 	dv("SetComponents(none)", c09HasD0, func(d scte35.SegmentationDescriptor) { d.SetComponents(nil) }, func(g *ref.S35Seg) { g.Comps = nil })
 	dv("Components()[0].SetPTSOffset(2^33-1)", c09HasD0Comp, func(d scte35.SegmentationDescriptor) { d.Components()[0].SetPTSOffset(1<<33 - 1) }, func(g *ref.S35Seg) { g.Comps[0].Offset = 1<<33 - 1 })
 	dv("Components()[0].SetComponentTag(0xDD)", c09HasD0Comp, func(d scte35.SegmentationDescriptor) { d.Components()[0].SetComponentTag(0xDD) }, func(g *ref.S35Seg) { g.Comps[0].Tag = 0xDD })
@@ -862,7 +896,7 @@ func init() {
 	sigRule := "alphabet: UpdateData; SCTE35.SetTier {FFF,0,1ABC->ABC}, SetHasPTS t/f, SetPTS {90000,2^33-1}, SetAdjustPTS {0,2^32+5}, SetAlignmentStuffing {0,3}, SetCommandInfo(fresh null / time_signal / splice_insert), SetDescriptors(none / current + fresh); " +
 		"CommandInfo().SetHasPTS t/f, SetPTS {1, 2^33+7->7}; SpliceInsert.Set{IsEventCanceled,IsOut,IsProgramSplice,HasDuration,SpliceImmediate,IsAutoReturn} t/f, SetDuration, SetEventID, SetUniqueProgramId, SetAvailNum, SetAvailsExpected; Components()[0].SetComponentTag, SetPTS(3*2^32->2^32), SetHasPTS t/f"
 	descRule := "alphabet on Descriptors()[0]: UpdateData; SetDescriptors(none / current + fresh); Set{IsEventCanceled,HasProgramSegmentation,HasDuration,IsDeliveryNotRestricted,IsWebDeliveryAllowed,HasNoRegionalBlackout,IsArchiveAllowed,HasSubSegments} t/f; " +
-		"SetDuration {2^40+2^39+1 -> 2^39+1, 2^39-1}; SetDeviceRestrictions {0,2}; SetEventID; SetTypeID {34,36,10}; SetSubSegmentNumber/Expected; SetSegmentNumber/Expected; SetUPIDType {MID,TI,not used}; SetUPID {8 bytes, empty}; SetMID {2 entries, none}; MID()[0].SetUPID / SetUPIDType; SetComponents {one, none}; Components()[0].SetPTSOffset / SetComponentTag"
+		"SetDuration {2^40+2^39+1 -> 2^39+1, 2^39-1}; SetDeviceRestrictions {0,2}; SetEventID; SetTypeID {34,36,10}; SetSubSegmentNumber/Expected; SetSegmentNumber/Expected; SetUPIDType {MID,TI,not used}; SetUPID {8 bytes, empty}; SetMID {2 entries, none}; MID()[0].SetUPID / SetUPIDType; SetComponents {one, none, own handles reversed, own last handle + fresh + own first}; SetMID(own handles reversed); Components()[0].SetPTSOffset / SetComponentTag"
 	bfsOracle := "; two twins receive every call: on the lazy one all getters (including fields hidden behind cleared flags) == model after every call and Data() is unchanged unless the call is UpdateData(); the eager one is encoded after every call: " + c09Oracle +
 		"; states deduplicated on model + Data(); not asserted (model adopts the object's value): signal PTS after SCTE35.SetPTS on a splice_null, stored upid/MID after SetUPIDType, HasSubSegments after SetTypeID to a type without sub-segment fields, alignment stuffing content"
 	engine.Register(&engine.Property{
@@ -954,6 +988,56 @@ func init() {
 						}
 					}
 					res.Nontrivial++
+					return res
+				},
+				Batch: 1,
+			},
+			&engine.Enum[c08LongCase]{
+				Name: "reencode-long-structures",
+				Rule: "the long structures of C08 (every section_length in the windows around 255/256 and each multiple of 1024; component-mode splice_insert with up to 60 timed / 255 immediate components x descriptor loop lengths 0..300 swept byte by byte, so that splice_command_length crosses 255/256): decode -> UpdateData() -> byte-identical, oracle of reencode-fields",
+				Gen: func(r *engine.Run, emit func(c08LongCase)) {
+					add := func(a, b int) {
+						for t := a; t <= b; t += 16 {
+							emit(c08LongCase{Kind: "section-length", From: t, To: min(t+15, b)})
+						}
+					}
+					timed := []int{0, 1, 3, 41, 42, 43, 60}
+					imm := []int{0, 3, 245, 254, 255}
+					if r.Thorough() {
+						add(40, 4093)
+						timed, imm = seq(0, 70), seq(0, 255)
+					} else {
+						add(200, 300)
+						add(1000, 1050)
+						add(2040, 2060)
+						add(4080, 4093)
+					}
+					for _, n := range timed {
+						emit(c08LongCase{Kind: "components-timed", From: n})
+					}
+					for _, n := range imm {
+						emit(c08LongCase{Kind: "components-immediate", From: n})
+					}
+				},
+				Check: func(c c08LongCase) engine.Result {
+					var res engine.Result
+					switch c.Kind {
+					case "section-length":
+						for t := c.From; t <= c.To; t++ {
+							if sec, ok := c08SectionOfLength(t); ok {
+								res.Nontrivial++
+								c09CheckReencode(&res, &sec, false)
+							}
+						}
+					default:
+						c08InsertSweep(c.From, c.Kind == "components-immediate", func(sec *ref.S35Section) {
+							if len(res.Fail) > 8 {
+								return
+							}
+							res.Nontrivial++
+							c09CheckReencode(&res, sec, false)
+						})
+					}
 					return res
 				},
 				Batch: 1,
